@@ -110,6 +110,8 @@ type Env struct {
 	shortWriteUsed bool
 	mapRangeSeen   bool // a map with >= 2 live entries was iterated without exploring its order
 	randUsed       bool
+	ticks          int  // ticks a time.NewTicker channel is pre-loaded with (verifrt.SetTicks)
+	modelOnly      bool // the path used an environment choice a native run cannot force
 }
 
 func newEnv() *Env {
@@ -315,6 +317,23 @@ func init() {
 		e.addPC(e.tf.And(e.tf.Cmp(OSle, e.tf.Const(64, 0), r), e.tf.Cmp(OSlt, r, n)))
 		return r
 	}, "math/rand.Intn")
+
+	// time.NewTicker: a ticker whose channel already holds the ticks the harness asked for
+	// (verifrt.SetTicks): a goroutine body run with RunUntilBlocked consumes them and then parks.
+	reg(func(e *Exec, fn *ssa.Function, args []Value) Value {
+		pt := fn.Signature.Results().At(0).Type().(*types.Pointer)
+		sv := e.zero(pt.Elem()).(*StructV)
+		ch := &ChanV{Cap: e.env.ticks + 1}
+		now := e.prog.ImportedPackage("time").Func("Now")
+		for i := 0; i < e.env.ticks; i++ {
+			ch.Buf = append(ch.Buf, e.call(now, nil))
+		}
+		e.env.ticks = 0
+		e.env.modelOnly = true
+		sv.F[0].V = ch
+		return &PtrV{C: &Cell{V: sv}}
+	}, "time.NewTicker")
+	reg(noop, "(*time.Ticker).Stop", "(*time.Ticker).Reset")
 
 	// ----- sync -----
 	reg(noop, "(*sync.Mutex).Lock", "(*sync.Mutex).Unlock", "(*sync.RWMutex).Lock", "(*sync.RWMutex).Unlock",
